@@ -71,6 +71,14 @@ def run(ctx):
     for n, vs in enumerate(seqs):
         jobs.append({"id": "hist-ver-noclear-%s" % "".join(map(str, vs)),
                      "job": {"mode": "seq", "procs": [[call(KINDS[(n + i) % 6], v, "enc", "ttlv", reuse=True, noclear=True) for i, v in enumerate(vs)]]}})
+    # versions no KMIP release carries (0.260, 1.256, 2.0, 1.5, 3.4, 0.4): a message of such a version, then one of 1.0..1.4
+    EXOTIC = [1260, 2256, 3000, 2005, 4004, 1004]
+    for n, ex in enumerate(EXOTIC if not ctx.quick else EXOTIC[:4]):
+        for v in range(5):
+            for enc in (ENCS if not ctx.quick else ENCS[:1]):
+                k = KINDS[(n + v) % 6]
+                jobs.append({"id": "hist-exotic-%d-then-1.%d-%s" % (ex, v, enc),
+                             "job": {"mode": "seq", "procs": [[call(k, ex, "enc", enc), call(k, v, "enc", enc), call(KINDS[(n + v + 3) % 6], v, "enc", enc, reuse=True)]]}})
     # (b) gated: goroutines building plans under contention in an order taken from a TLC behaviour of CodecCache.tla
     orders = tlc_orders(ctx, [ctx.seed * 100 + i for i in range(8 if ctx.quick else 60)])
     if len(orders) < 4:
